@@ -215,6 +215,20 @@ pub fn erase_opaque_type_operations(
         }
     }
 
+    // An erasable opaque type is its single field: updating that field replaces the whole
+    // value, and updating nothing leaves the record as it is.
+    if let AirTree::RecordUpdate {
+        tipo, record, args, ..
+    } = air_tree
+        && check_replaceable_opaque_type(tipo, data_types)
+    {
+        *air_tree = match args.pop() {
+            Some(AirTree::CastToData { value, .. }) => *value,
+            Some(arg) => arg,
+            None => std::mem::replace(record.as_mut(), AirTree::Void),
+        };
+    }
+
     let mut held_types = air_tree.mut_held_types();
 
     while let Some(tipo) = held_types.pop() {
